@@ -221,6 +221,10 @@ func generateGrid(family string, n int, r *rng, p func(string, ...any)) bool {
 	case "tbsgrid":
 		genTbsGrid(p)
 		return true
+	case "taggrid":
+		genTaggedLabelGrid(p)
+		genTagContextGrid(p)
+		return true
 	case "ecfault":
 		genEcFault(p)
 		return true
@@ -844,6 +848,117 @@ func genTaggedLabelGrid(p func(string, ...any)) {
 			p("dec s1 %s", hexs(wTag(18, wArr(wBstr(wMap(wInt(1), wInt(-7)).enc()), wMap(wInt(11), cs), wBstr(payload), sigB.clone())).enc()))
 			p("dec s1 %s", hexs(wTag(18, wArr(wBstr(wMap(wInt(1), wInt(-7)).enc()), wMap(wInt(7), wArr(cs.clone(), cs.clone())), wBstr(payload), sigB.clone())).enc()))
 			p("dec key %s", hexs(wMap(wInt(1), wInt(4), tagW(tag, tagHW, lbl.clone()), val.clone(), wInt(-1), wBstr([]byte{1})).enc()))
+		}
+	}
+}
+
+// The self-described tag around a type-checked value (or a label) in CONTEXT: next to siblings of
+// every shape — scalars, arrays, maps with one and several pairs, long strings, heads of every
+// width — before and after them, at the start, in the middle and at the end of an array, and with
+// the tag number itself under a 2-, 4- and 8-byte head.  A scan of the raw bytes that loses its
+// place in a container, stops early, forgets an earlier hit or looks for one spelling of the tag
+// only shows up here; the walker (strippedTagWhereChecked) is the oracle.
+func genTagContextGrid(p func(string, ...any)) {
+	payload := []byte{0x50}
+	wide := func(x *W, hw int) *W { y := x.clone(); y.HW = hw; return y }
+	for _, thw := range []int{-1, 4, 8} {
+		t := func(x *W) *W { return tagW(55799, thw, x) }
+		// sibling entries (label, value) of a protected bucket the library does not interpret
+		sibs := [][]*W{
+			nil,
+			{wInt(15), wMap(wInt(1), wTstr("iss"))},
+			{wInt(15), wMap(wInt(1), wTstr("iss"), wInt(2), wTstr("sub"), wInt(3), wTstr("aud"))},
+			{wInt(99), wArr(wInt(1), wInt(2), wInt(3))},
+			{wInt(99), wArr(wArr(wInt(1)), wMap(wInt(1), wInt(2)))},
+			{wInt(33), wBstr(make([]byte, 30))},
+			{wTstr("a-rather-long-text-label-of-more-than-23-octets"), wInt(1)},
+			{wide(wInt(99), 8), wInt(0)},
+			{wInt(99), wide(wInt(7), 8)},
+			{wInt(99), wide(wBstr([]byte{1}), 8)},
+			{wInt(-70001), wTag(1, wInt(1700000000))},
+			{wInt(99), wMap()}, {wInt(99), wArr()},
+		}
+		// entries with the tag where the library type-checks
+		targets := [][]*W{
+			{wInt(1), t(wInt(-7))},
+			{wInt(1), wInt(-7), wInt(4), t(wBstr([]byte{0x6b}))},
+			{wInt(1), wInt(-7), wInt(2), wArr(t(wInt(4)), wInt(1)), wInt(4), wBstr([]byte{0x6b})},
+			{wInt(1), wInt(-7), wInt(2), wArr(wInt(1), t(wInt(4))), wInt(4), wBstr([]byte{0x6b})},
+			{wInt(1), wInt(-7), wInt(2), wArr(wInt(1), t(wInt(4)), wInt(3)), wInt(3), wInt(0), wInt(4), wBstr([]byte{0x6b})},
+			{wInt(1), wInt(-7), wInt(258), t(wInt(-16))},
+			{wInt(1), wInt(-7), t(wInt(4)), wBstr([]byte{0x6b})},
+			{wInt(1), wInt(-7), wInt(16), t(wTstr("a/b"))},
+		}
+		emit := func(pm *W) {
+			sigB := wBstr([]byte{1})
+			pb := wBstr(pm.enc())
+			p("dec ph %s", hexs(pb.enc()))
+			p("dec s1 %s", hexs(wTag(18, wArr(pb.clone(), wMap(), wBstr(payload), sigB)).enc()))
+			p("dec sm %s", hexs(wTag(98, wArr(wBstr([]byte{}), wMap(), wBstr(payload), wArr(wArr(pb.clone(), wMap(), sigB.clone())))).enc()))
+			p("dec s1 %s", hexs(wTag(18, wArr(wBstr(wMap(wInt(1), wInt(-7)).enc()), wMap(wInt(11), wArr(pb.clone(), wMap(), sigB.clone())), wBstr(payload), sigB.clone())).enc()))
+			// … and verified: a verifier that accepts anything must not be reached under an alg
+			// that is not the plain integer on the wire
+			p("v1 t %s - T:-7:1 -", hexs(wTag(18, wArr(pb.clone(), wMap(), wBstr(payload), sigB.clone())).enc()))
+		}
+		for _, sb := range sibs {
+			for _, tg := range targets {
+				var a, b []*W
+				for _, x := range sb {
+					a = append(a, x.clone())
+					b = append(b, x.clone())
+				}
+				for _, x := range tg {
+					a = append(a, x.clone())
+				}
+				// the same entries, target first
+				var c []*W
+				for _, x := range tg {
+					c = append(c, x.clone())
+				}
+				c = append(c, b...)
+				emit(wMap(a...))
+				if sb != nil {
+					emit(wMap(c...))
+				}
+			}
+		}
+		// COSE_Keys: every parameter value is checked
+		ksibs := [][]*W{
+			nil,
+			{wInt(-70001), wMap(wInt(1), wTstr("x"), wInt(2), wTstr("y"))},
+			{wInt(-70001), wArr(wInt(1), wArr(wInt(2)))},
+			{wide(wInt(2), 8), wBstr([]byte{0x31})},
+			{wTstr("serial"), wide(wInt(7), 4)},
+		}
+		ktargets := [][]*W{
+			{wInt(1), t(wInt(4)), wInt(-1), wBstr([]byte{0xaa})},
+			{wInt(1), wInt(4), wInt(-1), t(wBstr([]byte{0xaa}))},
+			{wInt(1), wInt(1), wInt(-1), t(wInt(6)), wInt(-2), wBstr(make([]byte, 32))},
+			{wInt(1), wInt(1), wInt(-1), wInt(6), wInt(-2), wBstr(make([]byte, 32)), wInt(4), wArr(t(wInt(2)), wInt(1))},
+			{wInt(1), wInt(1), wInt(-1), wInt(6), wInt(-2), wBstr(make([]byte, 32)), wInt(4), wArr(wInt(2), t(wInt(1)))},
+			{wInt(1), wInt(1), wInt(3), t(wInt(-8)), wInt(-1), wInt(6), wInt(-2), wBstr(make([]byte, 32))},
+			{wInt(1), wInt(4), wInt(-1), wBstr([]byte{0xaa}), wInt(-70002), wArr(wInt(1), t(wInt(2)), wInt(3))},
+			{wInt(1), wInt(4), wInt(-1), wBstr([]byte{0xaa}), t(wInt(-70002)), wInt(1)},
+		}
+		for _, sb := range ksibs {
+			for _, tg := range ktargets {
+				var a, c []*W
+				for _, x := range sb {
+					a = append(a, x.clone())
+				}
+				for _, x := range tg {
+					a = append(a, x.clone())
+					c = append(c, x.clone())
+				}
+				for _, x := range sb {
+					c = append(c, x.clone())
+				}
+				p("dec key %s", hexs(wMap(a...).enc()))
+				p("keyuse %s", hexs(wMap(a...).enc()))
+				if sb != nil {
+					p("dec key %s", hexs(wMap(c...).enc()))
+				}
+			}
 		}
 	}
 }
